@@ -198,8 +198,13 @@ def step(I, states, fn, argf, keep=lambda s: True, generics=None):
         out += done
     return out
 
-def run_update(I, shape, nadd):
-    """from_repo -> versions/expirations -> nadd x add_target -> sign.  Returns (W, list of (state, stage, result))"""
+def fn_by_sig(I, suffix, first_arg):
+    for n, fs in I.funcs.items():
+        if n.endswith(suffix) and fs[0].args.startswith(first_arg): return fs[0]
+    raise Stuck(f'{suffix} ({first_arg}) not found in the MIR')
+
+def run_update(I, shape, nadd, then_write=False):
+    """from_repo -> versions/expirations -> nadd x add_target -> sign [-> SignedRepository::write].  Returns (W, list of (state, stage, tag, value))"""
     st = State(); st.env['fs'] = {}
     W = mk_world(st, shape)
     saved = list(I.models); I.models[:0] = editor_models(I, W) + install_format_models()
@@ -240,7 +245,15 @@ def run_update(I, shape, nadd):
             done = []; I.run(s, done.append)
             for s2 in done:
                 tag, val = classify(s2.result)
-                finished.append((s2, 'sign', tag, val))
+                if tag != 'Ok' or not then_write:
+                    finished.append((s2, 'sign', tag, val)); continue
+                wfn = fn_by_sig(I, '>::write', '_1: &SignedRepository')
+                s2.env['signed_repo'] = val
+                s2.frames.append(ModelFrame(h_async_driver, {'phase': 0, 'ctor': wfn, 'args': [Ref(s2.alloc(val)), Obj('path', key='out')], 'generics': {'P': '&str'}}))
+                done2 = []; I.run(s2, done2.append)
+                for s3 in done2:
+                    tag3, _ = classify(s3.result)
+                    finished.append((s3, 'write', tag3, s3.env['signed_repo']))
     finally:
         I.models[:] = saved
     return W, finished
